@@ -179,3 +179,21 @@ package tls
 //@   ensures  [mutual] result == "" || (ngHas(preferenceProtos, result) && ngHas(protos, result))
 //@   ensures  [top] len(preferenceProtos) >= 1 && ngHas(protos, preferenceProtos[0]) ==> result == preferenceProtos[0]
 //@   terminates
+
+// ---------------------------------------------------------------- handshake_server.go: downgrade sentinel
+
+// RFC 8446 4.1.3: a server that supports TLS 1.2 or later and negotiates an older version than
+// its maximum must set the last eight bytes of ServerHello.random to "DOWNGRD" 01 (when TLS 1.2
+// is negotiated) or "DOWNGRD" 00 (TLS 1.1 and below). Stated at the point where the remaining
+// random bytes are drawn: only the first 24 bytes are handed to the random source and the
+// sentinel is already in place. PARTIAL CLAIM (`claims at`): processClientHello is a long
+// state-machine function; nothing else about it is claimed. (A configured Config.ServerRandom
+// overrides the whole random, sentinel included - zcrypto's research feature - and is the other
+// branch of the code.)
+//@ pred dgCanary(r, v) = len(r) == 32 && r[24] == 'D' && r[25] == 'O' && r[26] == 'W' && r[27] == 'N' && r[28] == 'G' && r[29] == 'R' && r[30] == 'D' && r[31] == ite(v == VersionTLS12, 1, 0)
+//@ func (*serverHandshakeState).processClientHello
+//@   claims at
+//@   requires rand.Reader != nil
+//@   at call ReadFull assert (maxVers >= VersionTLS12 && c.vers < maxVers) ==> len(arg1) == 24 && dgCanary(hs.hello.random, c.vers)
+//@   maypanic
+//@   modifies all
